@@ -376,7 +376,7 @@ class DoWhile(Node):
         self.statement = statement
 
     def children(self):
-        return [self.predicate, self.statement]
+        return [self.statement, self.predicate]
 
 
 class While(Node):
